@@ -177,14 +177,31 @@ class Obligation:
             sk_hyps, g = T.skolemize(T.to_z3(g))
             fs += sk_hyps
         fs.append(z3.Not(T.to_z3(g)) if not isinstance(g, bool) else z3.BoolVal(not g))
-        ax = T.sum_axioms(fs)
-        fs += ax
-        fs += T.ext_axioms(fs)
         if instantiate:
-            inst = T.instantiate_quantified(fs)
-            fs += inst
-            # nested quantifiers exposed by the first round
-            fs += T.instantiate_quantified(inst, cap=300)
+            # lemma-schema instances for the Sum applications of the goal (they introduce skolem
+            # indices), then ground instances of the quantified hypotheses at the (few) index terms
+            # now in play, then lemma instances again for the Sum applications those exposed
+            done, seen = set(), set()
+            base = list(fs)
+            for _ in range(3):
+                # congruence chains only (no sign instances: they multiply the Sum applications)
+                ax = T.sum_axioms(fs, done=done, signs=False)
+                inst = T.ematch(base, fs + ax, seen, cap=200, per_hyp=24)
+                fs += ax + inst
+                if not ax and not inst:
+                    break
+            if instantiate != "lean":
+                fs += T.sum_axioms(fs, done=done, signs=True, pairs=False)
+            fs += T.ext_axioms(fs)
+            fs += T.theory_axioms(fs, extra_trig=extra_trig)
+            return fs
+        done = set()
+        for _ in range(2):
+            ax = T.sum_axioms(fs, done=done)
+            if not ax:
+                break
+            fs += ax
+        fs += T.ext_axioms(fs)
         fs += T.theory_axioms(fs, extra_trig=extra_trig)
         return fs
 
@@ -578,7 +595,21 @@ def _extract_model(m, obs):
 _DEADLINE = [None]
 
 
-def _z3_check(fs, timeout_ms):
+def _z3_retry(fs, timeout_ms, seeds=(0, 7, 13, 29)):
+    """the same query under several random seeds with a short budget each: queries that are solved
+    in a fraction of a second under one seed can diverge under another (unstable heuristics); an
+    `unsat` under any seed is an `unsat`"""
+    per = max(1500, int(timeout_ms / len(seeds)))
+    last = (z3.unknown, None)
+    for sd in seeds:
+        r, s = _z3_check(fs, per, seed=sd)
+        if r != z3.unknown:
+            return r, s
+        last = (r, s)
+    return last
+
+
+def _z3_check(fs, timeout_ms, seed=None):
     """one z3 query; never longer than what is left of the obligation's total budget (the parent
     process additionally kills a worker that overruns: some tactics ignore the soft timeout)"""
     if _DEADLINE[0] is not None:
@@ -588,6 +619,8 @@ def _z3_check(fs, timeout_ms):
         timeout_ms = min(timeout_ms, left)
     s = z3.Solver()
     s.set("timeout", int(timeout_ms))
+    if seed is not None:
+        s.set("random_seed", int(seed))
     s.add(*fs)
     try:
         r = s.check()
@@ -617,19 +650,20 @@ def _solve_one(args):
         # products of symbolic terms: the abstraction (sound for unsat) is tried first, it is the
         # robust route; the exact nonlinear engine comes afterwards
         try:
-            r0, _ = _z3_check(T.abstract_nonlinear(fs), min(timeout_ms, 10000))
+            r0, _ = _z3_retry(T.abstract_nonlinear(fs), min(timeout_ms, 12000))
             attempts.append(f"z3[nl-abstraction]={r0}")
             if r0 == z3.unsat:
                 return (idx, "discharged", "z3+nl-abstraction", time.time() - t0, None, " ".join(attempts))
         except Exception as e:
             attempts.append(f"nl-abstraction-error={type(e).__name__}:{e}")
+    abstracted = _has_abstractions(fs)
     r, s = _z3_check(fs, short)
     attempts.append(f"z3={r}")
     if r == z3.unsat:
         return (idx, "discharged", "z3", time.time() - t0, None, " ".join(attempts))
     if r == z3.sat:
         model = _extract_model(s.model(), obs)
-        if not trig:
+        if not trig and not abstracted:
             return (idx, "refuted", "z3", time.time() - t0, model, " ".join(attempts))
     if trig:
         fst = ob.formulas(extra_trig=True)
@@ -638,38 +672,71 @@ def _solve_one(args):
         if r2 == z3.unsat:
             return (idx, "discharged", "z3", time.time() - t0, None, " ".join(attempts))
         if r2 == z3.sat:
-            return (idx, "refuted", "z3", time.time() - t0, _extract_model(s2.model(), obs), " ".join(attempts))
+            model = _extract_model(s2.model(), obs)
+            if not abstracted:
+                return (idx, "refuted", "z3", time.time() - t0, model, " ".join(attempts))
         fs = fst
-    if model is None:
-        try:
-            fi = ob.formulas(extra_trig=trig, instantiate=True)
+    # A model of formulas that mention Sum / Max / Argmax / uninterpreted transcendental functions is only a
+    # model of an abstraction (their axioms are instantiated on demand): it is kept as a *candidate* and the
+    # unsat-seeking strategies below still run; the candidate is reported only if none of them succeeds, and
+    # is then subject to replay on the real code.
+    try:
+        fl = ob.formulas(extra_trig=trig, instantiate="lean")
+        r8, s8 = _z3_retry(fl, min(timeout_ms, 8000))
+        attempts.append(f"z3[inst-lean]={r8}")
+        if r8 == z3.unsat:
+            return (idx, "discharged", "z3+instantiation", time.time() - t0, None, " ".join(attempts))
+        if model is None or not nonlinear:
+            pass
+        r9, _ = _z3_check(T.abstract_nonlinear(fl), min(timeout_ms, 8000)) if nonlinear else (z3.unknown, None)
+        if nonlinear:
+            attempts.append(f"z3[inst-lean+nl-abstraction]={r9}")
+            if r9 == z3.unsat:
+                return (idx, "discharged", "z3+nl-abstraction", time.time() - t0, None, " ".join(attempts))
+        fi = ob.formulas(extra_trig=trig, instantiate=True)
+        r6, s6 = _z3_check(fi, min(timeout_ms, 10000))
+        attempts.append(f"z3[inst]={r6}")
+        if r6 == z3.unsat:
+            return (idx, "discharged", "z3+instantiation", time.time() - t0, None, " ".join(attempts))
+        if r6 == z3.sat and model is None:
+            model = _extract_model(s6.model(), obs)
+        if nonlinear:
             r7, _ = _z3_check(T.abstract_nonlinear(fi), min(timeout_ms, 15000))
             attempts.append(f"z3[inst+nl-abstraction]={r7}")
             if r7 == z3.unsat:
                 return (idx, "discharged", "z3+nl-abstraction", time.time() - t0, None, " ".join(attempts))
-            r6, _ = _z3_check(fi, min(timeout_ms, 10000))
-            attempts.append(f"z3[inst]={r6}")
-            if r6 == z3.unsat:
-                return (idx, "discharged", "z3+instantiation", time.time() - t0, None, " ".join(attempts))
-        except Exception as e:
-            attempts.append(f"inst-error={type(e).__name__}:{e}")
-        if timeout_ms > short:
-            r4, s4 = _z3_check(fs, timeout_ms)
-            attempts.append(f"z3[full]={r4}")
-            if r4 == z3.unsat:
-                return (idx, "discharged", "z3", time.time() - t0, None, " ".join(attempts))
-            if r4 == z3.sat:
-                return (idx, "refuted", "z3", time.time() - t0, _extract_model(s4.model(), obs), " ".join(attempts))
-    try:
-        r5 = _cvc5_check(fs, min(timeout_ms, 15000))
-        attempts.append(f"cvc5={r5[:40]}")
-        if r5 == "unsat":
-            return (idx, "discharged", "cvc5", time.time() - t0, None, " ".join(attempts))
     except Exception as e:
-        attempts.append(f"cvc5-error={type(e).__name__}")
+        attempts.append(f"inst-error={type(e).__name__}:{e}")
+    if model is None and timeout_ms > short:
+        r4, s4 = _z3_check(fs, timeout_ms)
+        attempts.append(f"z3[full]={r4}")
+        if r4 == z3.unsat:
+            return (idx, "discharged", "z3", time.time() - t0, None, " ".join(attempts))
+        if r4 == z3.sat:
+            model = _extract_model(s4.model(), obs)
+    if model is None:
+        try:
+            r5 = _cvc5_check(fs, min(timeout_ms, 15000))
+            attempts.append(f"cvc5={r5[:40]}")
+            if r5 == "unsat":
+                return (idx, "discharged", "cvc5", time.time() - t0, None, " ".join(attempts))
+        except Exception as e:
+            attempts.append(f"cvc5-error={type(e).__name__}")
     if model is not None:
-        return (idx, "refuted", "z3", time.time() - t0, model, " ".join(attempts))
+        return (idx, "refuted", "z3", time.time() - t0, model, " ".join(attempts) + (" (model of an abstraction: candidate only)" if abstracted else ""))
     return (idx, "undecided", "none", time.time() - t0, None, " ".join(attempts))
+
+
+def _has_abstractions(fs):
+    defined = T.defined_function_ids()
+    ufs = {f.get_id() for f in list(T.UF1.values()) + list(T.UF2.values())}
+    for f in fs:
+        for x in T.subterms(f).values():
+            if z3.is_app(x) and x.num_args() > 0:
+                d = x.decl().get_id()
+                if d in defined or d in ufs:
+                    return True
+    return False
 
 
 def _has_nonlinear(fs):
